@@ -294,6 +294,8 @@ def gen_run(seed: int, tier: str, sub: str) -> dict:
         'share_args': r.choice(['none', 'none', 'thread', 'all']),
         'nops': r.randint(3, 10 if tier == 'quick' else 14),
         'faults': sub == 'faults',
+        # whether the callers overwrite the lists of every result they receive (theirs to do)
+        'scribble': r.random() < 0.6,
     }
     fault_kinds = []
     if cfg['faults']:
@@ -584,6 +586,7 @@ def execute_run(run: dict) -> dict:
     busy: dict = {}
     history: list[dict] = []
     engines = []
+    scribble_mark = fp.Float.from_int(-77) if hasattr(fp.Float, 'from_int') else -77.0
     rng = random.Random(run['sched_seed']) if run.get('schedule') is None else None
     sched = Scheduler(
         n, rng,
@@ -656,6 +659,11 @@ def execute_run(run: dict) -> dict:
                         if res is not None:
                             shared = V.list_ids(res) & arg_lists
                             rec['a2'] = not shared
+                            if cfg.get('scribble') and rec['a2']:
+                                # the result is the caller's: it overwrites every list in it
+                                # (the outcome was recorded above; nothing the library keeps may notice)
+                                if V.scribble(res, scribble_mark):
+                                    rec['scribbled'] = True
                         else:
                             rec['a2'] = True
                 elif kind == 'derive':
@@ -983,6 +991,8 @@ def collect_stats(st: core.Stats, run: dict, out: dict):
                 st.count('undecided', 'reference')
             if oc[0] == 'ok':
                 ok += 1
+            if rec.get('scribbled'):
+                st.count('faults', 'result-scribbled')
         elif rec['op'] in ('engine', 'swap_default', 'redefine', 'gc', 'new_rt', 'factory', 'ambient'):
             st.count('faults', rec['op'])
         elif rec['op'] == 'derive':
